@@ -119,9 +119,8 @@ def run_case(ctx, case):
             # variance is ~ eps32 * max|x|^2, hence of the std ~ eps32*max|x|^2/std. Beyond that -> violation.
             mmax = max(abs(v) for v in allv)
             eps32 = 2.0**-23
-            tol_abs = 16 * eps32 * mmax * mmax / std if (std == std and std > 0) else float("inf")
-            if std == std and std == 0.0 and not (lstd != lstd):
-                tol_abs = 64 * eps32 * mmax + 1e-30  # constant history: anything ~0 at float32 scale is fine, NaN is not
+            # |std_lib - std| <= sqrt(std^2 + dv) - std with dv = 16*eps32*max|x|^2 (covers std == 0: sqrt(dv))
+            tol_abs = (math.sqrt(std * std + 16 * eps32 * mmax * mmax) - std) if std == std else float("inf")
             if not close(lm, mean, 1e-4, 1e-5 * (std if std == std else 1.0) + 1e-6 * max(abs(mean), 1e-30)):
                 ctx.violation(dict(sig, q="mean"), f"running mean {lm} != mean of all {n} values {mean}", dict(t=t, history_sizes=sorted(sizes)))
             if n > 1 and lstd is not None and not close(lstd, std, 2e-4, tol_abs + 4e-7 * max(abs(std), 1e-30) + 2e-7):
